@@ -2,6 +2,7 @@ import RTA.Lemmas.MonoAnalyses
 import RTA.Lemmas.MonoRos
 import RTA.Lemmas.MonoChain
 import RTA.Lemmas.MonoRosOwn
+import RTA.Lemmas.MonoChainOwn
 /-! # C17 — response-time bounds are monotone in workload and supply
 
 Order on results: `Res.le`: `ok a ≤ ok b` iff `a ≤ b`; every `ok`/`div` is below a divergence
@@ -161,6 +162,21 @@ theorem ros_chain_monotone_partial (s s' : Supply) (hs : s.WF) (hs' : s'.WF) (hs
       (rosChain s (.rbf a (.scalar C)) (.rbf a (.scalar P)) (.rbf a (.scalar (C + P))) others limit)
       (rosChain s' (.rbf a (.scalar C)) (.rbf a (.scalar P')) (.rbf a (.scalar (C + P'))) others' limit) :=
   chain_mono s s' hs hs' hsup a C P P' hwf hex hC hP hPP hpos others others' hwfo hexo hwfo' hexo' h limit hl
+
+/-- processing chain: EVERY single-parameter hardening, including the chain's own arrival curve
+and the WCETs of its last callback and of its prefix -/
+theorem ros_chain_monotone (s s' : Supply) (hs : s.WF) (hs' : s'.WF) (hsup : s'.Weaker s)
+    (a a' : Arr) (C C' P P' : Nat) (hwf : a.WF) (hex : a.Exact) (hwf' : a'.WF) (hex' : a'.Exact)
+    (hC : 1 ≤ C) (hCC : C ≤ C') (hP : 1 ≤ P) (hPP : P ≤ P')
+    (hpos : 0 < a.N 1) (hN : ∀ d, a.N d ≤ a'.N d)
+    (others others' : RB) (hwfo : others.ArrWF) (hexo : others.Exact)
+    (hwfo' : others'.ArrWF) (hexo' : others'.Exact)
+    (h : ∀ d, others.need d ≤ others'.need d) (limit : Nat) (hl : 1 ≤ limit) :
+    Res.leD
+      (rosChain s (.rbf a (.scalar C)) (.rbf a (.scalar P)) (.rbf a (.scalar (C + P))) others limit)
+      (rosChain s' (.rbf a' (.scalar C')) (.rbf a' (.scalar P')) (.rbf a' (.scalar (C' + P'))) others' limit) :=
+  chain_mono_all s s' hs hs' hsup a a' C C' P P' hwf hex hwf' hex' hC hCC hP hPP hpos hN others others'
+    hwfo hexo hwfo' hexo' h limit hl
 
 /-- rr subchain analysis: a pointwise harder workload (every callback: same kind, no smaller
 assumed response-time bound, no fewer arrivals, no smaller costs; the end of the chain with a
